@@ -1,6 +1,7 @@
 import AvoVerif.Props.C10
 import AvoVerif.Props.C10Tables
 import AvoVerif.Props.C10Sim
+import AvoVerif.Props.C10SelfMove
 #print axioms Avo.Cleanup.prune_selfmov_ok
 #print axioms Avo.Cleanup.selfMove_kind
 #print axioms Avo.Cleanup.movl_self_has_effect
@@ -18,3 +19,14 @@ import AvoVerif.Props.C10Sim
 #print axioms Avo.Cleanup.pruneJumps_run
 #print axioms Avo.Cleanup.pruneLabels_step
 #print axioms Avo.Cleanup.after_prune
+#print axioms Avo.Cleanup.pruneSelfMoves_step
+#print axioms Avo.Cleanup.pruneSelfMoves_run
+#print axioms Avo.Cleanup.pruneSelfMoves_steps_bound
+#print axioms Avo.Cleanup.pruneSelfMoves_halts
+#print axioms Avo.Cleanup.pruneSelfMoves_run_entry
+#print axioms Avo.Cleanup.keepHead_step
+#print axioms Avo.Cleanup.pruneSelfMoves_step_none
+#print axioms Avo.Cleanup.pruneSelfMoves_step_none_conv
+#print axioms Avo.Cleanup.after_pruneSelfMoves
+#print axioms Avo.Cleanup.after_keepHead
+#print axioms Avo.Cleanup.hself_of_execMov
